@@ -11,6 +11,7 @@ Conventions (from `ESFResult.apply_pdf`): `t = ln(Q²/μ_F²)` multiplies key co
 `r = ln(Q²/μ_R²)` multiplies `lnR`, `a = a_s(μ_R)`; `ℓ = t − r = ln(μ_R²/μ_F²)`.
 -/
 import YadismModel.Model.Orders
+import YadismModel.Generated.Projectors
 import Mathlib.Tactic.Ring
 import Mathlib.Tactic.Linarith
 import Mathlib.Tactic.LinearCombination
@@ -241,6 +242,28 @@ theorem buildOrders_table :
     (buildOrders 0).length = 1 ∧ (buildOrders 1).length = 3 ∧ (buildOrders 2).length = 9 ∧
     (buildOrders 3).length = 21 ∧
     buildOrders 1 = [⟨0,0,0,0⟩, ⟨1,0,0,0⟩, ⟨1,0,0,1⟩] := by
+  decide +kernel
+
+/-! ## eko's flavour-space projectors
+
+`scale_variations.py` multiplies the parton weights with `eko.basis_rotation.ad_projectors(nf)`
+(`partons @ projectors`).  `Generated/Projectors.lean` holds these seven 14×14 matrices for
+nf = 3…6 as exact rationals, regenerated from the installed eko on every run.  They satisfy the
+matrix-unit relations — `π(a,b)·π(c,d) = δ_bc π(a,d)` in the (quark-singlet, gluon) block, the three
+non-singlet projectors idempotent, mutually orthogonal and orthogonal to the block, and the diagonal
+ones adding up to the identity on the active flavours — which is exactly what lets a sum
+`Σ_s A_s ⊗ π_s` multiply sector by sector, i.e. what `actS` / `mulP` above assume. -/
+
+/-- the identity on the active flavours (gluon and the `nf` quarks and antiquarks) -/
+def activeIdent (nf : Nat) : QMat :=
+  Yadism.Gen.flavorPids.map fun p => Yadism.Gen.flavorPids.map fun q =>
+    if p = q ∧ (p = 21 ∨ (1 ≤ p.natAbs ∧ p.natAbs ≤ nf)) then (1 : Rat) else 0
+
+theorem projector_relations :
+    unitRelations Yadism.Gen.projectors3 14 (activeIdent 3) = true
+    ∧ unitRelations Yadism.Gen.projectors4 14 (activeIdent 4) = true
+    ∧ unitRelations Yadism.Gen.projectors5 14 (activeIdent 5) = true
+    ∧ unitRelations Yadism.Gen.projectors6 14 (activeIdent 6) = true := by
   decide +kernel
 
 end Yadism.C05
